@@ -60,6 +60,9 @@ func quotes(ss []string) string {
 }
 
 func sortedQuotes(ss []string) string {
+	// Sort a copy. Callers pass shared slices such as values of AllWebhookTypes or
+	// Config.ConfigVariables which must not be modified (files are linted concurrently).
+	ss = append([]string(nil), ss...)
 	sort.Strings(ss)
 	return quotes(ss)
 }
